@@ -189,6 +189,11 @@ def run_one(exe, name, fn, seed, n, base=None, rep=None):
     died = "died:" in out
     if not died and not h.s.dead:
         udp = name == "udp"
+        if target.startswith("reply "):
+            # the server's reply once more, no allocation failing this time (a retransmitted request is answered again; UDP duplicates):
+            # if the first copy was dropped for lack of memory its request is still waiting, and what the client gets now must be
+            # what it would have got the first time
+            h.send("fault -1 " + target)
         for k in range(h.ncl):
             h.send("fault -1 pop %d" % k)
         for s in h.cfg.servers:
@@ -224,7 +229,7 @@ def run_one(exe, name, fn, seed, n, base=None, rep=None):
         for a, b in pairs:
             if a != b and len(a) >= 40 and len(b) >= 40:
                 a = "-" if a.startswith("-") else a
-                h.send("faultcmp %s %s" % (a, b))
+                h.send("faultcmp %s %s%s" % (a, b, " r" if target.startswith("reply ") else ""))
                 h.tag("sent-differently-under-fault")
     c = h.finish(kind=name, n=min(n, 999), site=(failed[0] if failed else "none"), outcome=("died" if died else "returned"))
     if failed:
